@@ -210,7 +210,7 @@ func c05BlockWait(c *Check, P string, r *GCRoles) {
 					hasClosing = true
 				case ck.Kind == "param" && !r.WaitInline:
 					hasDone = true
-				case r.WaitInline && AllOrigins(cs.Chan, ResultOfAny(fans, 0)):
+				case AllOrigins(cs.Chan, ResultOfAny(fans, 0)):
 					hasDone = true
 				}
 			}
